@@ -69,11 +69,16 @@ func installHooks() {
 		}
 	}
 	inject.PreloadHook = func() {
-		// FiemapFail armed: one extent query of the base file fails while the task's replica rebuilds its block map
+		// FiemapFail armed: one extent query of the newest snapshot file fails while the task's replica rebuilds its block map
 		if cl := curr; cl != nil && cl.cur != nil && cl.cur.running && cl.cur.goid == goid() && cl.failFiemap {
 			cl.failFiemap = false
 			if rn, ok := cl.nodes[cl.cur.node].(*RealNode); ok && rn.srv.Replica() != nil {
-				if restore, ok := rn.srv.Replica().VerifFailFiemapOnce(1); ok {
+				// the newest snapshot file: it shadows blocks that older files hold as well
+				idx := rn.srv.Replica().VerifNumFiles() - 1
+				if idx < 1 {
+					idx = 1
+				}
+				if restore, ok := rn.srv.Replica().VerifFailFiemapOnce(idx); ok {
 					cl.cnt["fiemap_failures_injected"]++
 					cl.restoreFiemap = restore
 				}
